@@ -17,19 +17,20 @@ ID = "C12"
 LEVEL = "exploration"
 COUNTS = {"quick": 3000, "thorough": 300000}
 RULE = ("seeded histories of 3-40 block commands (WRITE/READ 10/12/16, WRITE SAME 10/16 incl. NDOB/UNMAP/ANCHOR, SYNCHRONIZE CACHE, "
-        "READ CAPACITY, INQUIRY, some out of range) with boundary-biased LBAs over capacities up to 2**64-1, block sizes "
-        "{1,3,512,520,4096}, unique payload per write, run on an SG_IO device and an iSCSI device; fault-free and status-fault "
+        "READ CAPACITY (all fields of the 16-byte form varied), INQUIRY, some out of range) with boundary-biased LBAs over capacities "
+        "up to 2**64-1, block sizes {1,3,512,520,4096}; 12% of the histories on a writable MMC unit (type 05h, 2048-byte sectors, "
+        "READ/WRITE 10/12), 8% identity-only on a unit of any of the 32 device types; unique payload per write, run on an SG_IO device and an iSCSI device; fault-free and status-fault "
         "configurations are separate. Non-trivial = at least one read returned data written earlier in the same history; "
         "distinct = event digest")
 COMPONENTS = {"real": ["SCSI facade", "Read/Write/WriteSame/SynchronizeCache/ReadCapacity/Inquiry command classes", "SCSIDevice", "ISCSIDevice"],
               "stubs": ["sgio module", "iscsi module (moves data by the Task's direction/length)", "virtual /dev"],
-              "simulated_peers": ["t10.targets.BlockLU (sparse disk, decodes CDBs from the standard)"]}
+              "simulated_peers": ["t10.targets.BlockLU (sparse disk, decodes CDBs from the standard)", "t10.targets.MmcLU (same disk behind the MMC command set)", "t10.targets.GenericLU (identity only)"]}
 ASSUMPTIONS = [
     "the BlockLU ignores UNMAP (allowed) and rejects ANCHOR without UNMAP, NUMBER OF LOGICAL BLOCKS = 0 beyond 65536 blocks, and out-of-range LBAs with the SBC sense codes",
     "transfer lengths above 2**17 blocks are not explored (the library allocates blocksize*tl bytes)",
-    "result names read: returned_lba, block_length, t10_vendor_identification, product_identification, product_revision_level, peripheral_device_type",
+    "result names read: returned_lba, block_length, p_type, prot_en, p_i_exponent, lbppbe, lbpme, lbprz, lowest_aligned_lba, t10_vendor_identification, product_identification, product_revision_level, peripheral_device_type",
 ]
-REQUIRED_PROBES = ["readback_written", "lba_above_32bit", "ndob", "out_of_range_cc", "status", "shared_facade"]
+REQUIRED_PROBES = ["readback_written", "lba_above_32bit", "ndob", "out_of_range_cc", "status", "shared_facade", "mmc_unit", "geometry16_ok"]
 
 BS = [512, 512, 1, 1, 3, 520, 4096]
 CAPS = [64, 1 << 20, (1 << 32) + 1000, (1 << 40), (1 << 64) - 1]
@@ -121,15 +122,34 @@ def gen_op(rng, cfg, hot, counter):
     return op
 
 
+MMC_OPS = ("read10", "read12", "write10", "write12", "inquiry")      # the block commands the library's MMC command set carries
+
+
 def generate(rng, idx, tier):
     cfg = {"kind": F.BLOCK, "bs": rng.choice(BS), "nblocks": rng.choice(CAPS), "dev_type": rng.choice([0, 0, 4, 7]),
            "inq_len": rng.choice([36, 96, 96, 58, 74, 255])}
-    n = rng.choice([3, 4, 6, 8, 8, 12, 20, 40])
+    # what READ CAPACITY(16) reports besides the capacity: protection, physical block exponent, provisioning, alignment
+    cfg["geom"] = {"p_type": rng.choice([0, 0, 1, 2, 3, 5]), "prot_en": rng.randrange(2), "p_i_exp": rng.choice([0, 0, 1, 3, 15]),
+                   "lbppbe": rng.choice([0, 3, 3, 4, 12]), "lbpme": rng.randrange(2), "lbprz": rng.randrange(2),
+                   "lowest_aligned": rng.choice([0, 0, 1, 7, 0x3FFF, rng.randrange(1 << 14)])}
+    allowed = None
+    r = rng.random()
+    if r < 0.12:
+        # a writable MMC unit (DVD-RAM, BD-RE): 2048-byte sectors, 10- and 12-byte READ/WRITE
+        cfg.update(dev_type=5, bs=2048, nblocks=rng.choice([64, 1 << 20, (1 << 32) - 1]))
+        allowed = MMC_OPS
+    elif r < 0.2:
+        # identity only: a logical unit of any of the 32 peripheral device types answers INQUIRY
+        cfg.update(dev_type=rng.randrange(32))
+        allowed = ("inquiry",) if cfg["dev_type"] not in (0, 4, 7) else None
+    n = rng.choice([3, 4, 6, 8, 8, 12, 20, 40]) if allowed != ("inquiry",) else rng.choice([1, 2, 3])
     faulty = rng.random() < 0.25
     hot = []
     ops = []
     for i in range(n):
         op = gen_op(rng, cfg, hot, idx * 1000 + i + 1)
+        while allowed is not None and op["op"] not in allowed:
+            op = gen_op(rng, cfg, hot, idx * 1000 + i + 1)
         if faulty and rng.random() < 0.25:
             b = rng.choice([0x02, 0x02, 0x08, 0x18, 0x28, 0x40, 0x30, 0x04])
             op["fault"] = {"kind": "status", "byte": b}
@@ -216,7 +236,8 @@ def _outcome_repr(kind, val, name):
         return "ok:%d:%s" % (len(val.datain), hashlib.sha256(bytes(val.datain)).hexdigest()[:16])
     if name.startswith("readcapacity") or name == "inquiry":
         r = val.result
-        keys = ("returned_lba", "block_length", "peripheral_device_type", "t10_vendor_identification", "product_revision_level")
+        keys = ("returned_lba", "block_length", "peripheral_device_type", "t10_vendor_identification", "product_revision_level",
+                "p_type", "prot_en", "p_i_exponent", "lbppbe", "lbpme", "lbprz", "lowest_aligned_lba")
         return "ok:%r" % [(k, bytes(r[k]).hex() if isinstance(r.get(k), (bytes, bytearray)) else r.get(k)) for k in keys if k in r]
     return "ok"
 
@@ -233,6 +254,11 @@ def execute(prog):
         lu = worlds.make_lu(cfg, ident=7 + n)       # two physically distinct, identically initialised LUs
         lu.d_sense = bool(prog["config"].get("d_sense"))
         lu.inq_len = cfg.get("inq_len", 96)
+        if cfg.get("geom") and hasattr(lu, "geom"):
+            lu.geom = dict(cfg["geom"])
+        if hasattr(lu, "_blk"):
+            lu._blk.d_sense = lu.d_sense
+            WORLD.probe("mmc_unit")
         dev = worlds.open_device(t, lu)
         if prog["config"].get("shared_facade"):
             # one facade object, re-pointed to the other device before every command (s(dev))
@@ -337,6 +363,18 @@ def execute(prog):
                         V.append(dict(oracle="C12.geometry", where=where, detail="capacity",
                                       expected="returned_lba=%d block_length=%d" % (exp_lba, bs),
                                       actual="returned_lba=%r block_length=%r" % (r.get("returned_lba"), r.get("block_length"))))
+                    if name.endswith("16"):
+                        g = s["lu"].geom
+                        exp = {"p_type": g["p_type"], "prot_en": g["prot_en"], "p_i_exponent": g["p_i_exp"], "lbppbe": g["lbppbe"],
+                               "lbpme": g["lbpme"], "lbprz": g["lbprz"], "lowest_aligned_lba": g["lowest_aligned"]}
+                        got = {k: r.get(k) for k in exp}
+                        if got != exp:
+                            bad = sorted(k for k in exp if got[k] != exp[k])
+                            V.append(dict(oracle="C12.geometry", where=where, detail=",".join(bad),
+                                          expected="READ CAPACITY(16) reports %s" % {k: exp[k] for k in bad},
+                                          actual="%s" % {k: got[k] for k in bad}))
+                        else:
+                            WORLD.probe("geometry16_ok")
                 elif name == "inquiry":
                     r = val.result or {}
                     lu = s["lu"]
@@ -347,7 +385,7 @@ def execute(prog):
                     if got != exp:
                         V.append(dict(oracle="C12.identity", where=where, detail="inquiry", expected=repr(exp), actual=repr(got)))
             # the target's disk must equal the model's after every command
-            if s["lu"].blocks != s["model"].blocks:
+            if getattr(s["lu"], "blocks", {}) != s["model"].blocks:
                 diff = [k for k in set(s["lu"].blocks) | set(s["model"].blocks) if s["lu"].blocks.get(k) != s["model"].blocks.get(k)]
                 V.append(dict(oracle="C12.disk-diverged", where=where, detail="blocks",
                               expected="target disk == model after %s" % name, actual="%d blocks differ, first lba %d" % (len(diff), min(diff))))
